@@ -798,8 +798,10 @@ class Interp:
                     return None
                 items = self.loop_items_cb(self, m, f, t)
                 seq_here = None
+                from_start = False
                 if isinstance(items, tuple) and items and items[0] == 'seq':
                     seq_here = list(items[1])
+                    from_start = len(items) > 2 and items[2] == 'from-start'
                     items = [seq_here[0]]
                 if items is not None:
                     sig = (f.body.id, f.bb, tuple(x['item'] for x in stack), self.frame_sig(f))
@@ -814,7 +816,8 @@ class Interp:
                     for node in items:
                         m2 = fork(m)
                         f2 = m2.frames[-1]
-                        self.widen(f2, variant, skip={t['dest']['l']})
+                        if not from_start:      # (a sequence that begins with the first child keeps the state established before the loop)
+                            self.widen(f2, variant, skip={t['dest']['l']})
                         d2 = self.resolve_place(m2, f2, t['dest'])
                         self.store(d2, Agg('core::option::Option', 'Some', [node]))
                         rec = {'header': key, 'item': node, 'ev_start': len(m2.events), 'fn': f.body.short, 'bb': f.bb}
